@@ -214,7 +214,7 @@ func (r *Run) Parallel(n int, chunk int, fn func(w *W, i int)) {
 	if chunk < 1 {
 		chunk = 1
 	}
-	if miniRange := r.MiniRange; r.Mini && n > miniRange {
+	if miniRange := r.MiniRange; r.Mini && n > miniRange && n > miniFull {
 		// compact re-run: a seed- and phase-determined residue class of the index range
 		stride := (n + miniRange - 1) / miniRange
 		off := int((uint64(r.Seed)*0x9E3779B97F4A7C15 + uint64(r.miniSeq.Add(1))*0xD1342543DE82EF95) >> 33 % uint64(stride))
@@ -582,6 +582,9 @@ func (r *Run) runChildChecksEnv(tag string, env []string, args ...string) ([]str
 	}
 	return rest, err
 }
+
+// miniFull: index ranges up to this size (all v3 base vectors, twice) are never subsampled in a compact re-run.
+const miniFull = 11000
 
 // ProcsChildren re-runs this monitor, cut down, in fresh child processes whose GOMAXPROCS is each of
 // procs, every Parallel phase restricted to a residue class of at most rangeLimit indexes (a table sharded, striped or filled "per P" is only complete for some processor counts; a
